@@ -74,7 +74,11 @@ def build_world(ctx, rng, base, git):
     os.chmod(proj / "readonly.py", 0o444)
     (proj / "LICENSE").write_text("licence blurb\n")
     (proj / "LICENSES").mkdir(exist_ok=True)
-    if rng.random() < 0.5:
+    if rng.random() < 0.2:
+        # a fresh project: the directory is there, nothing in it yet (also not after a download that fails)
+        shutil.rmtree(proj / "LICENSES")
+        (proj / "LICENSES").mkdir()
+    elif rng.random() < 0.5:
         (proj / "LICENSES" / "LicenseRef-two.txt").write_text("already here\n")
     elif rng.random() < 0.5:
         (sent / "shared-licence.txt").write_text("shared text outside the project\n")
@@ -135,8 +139,11 @@ def pick_command(rng, proj, sent, recipe, covered, outdir):
     if r < 0.24:
         files = [str(proj / f) for f in rng.sample(cov, min(len(cov), rng.randint(1, 4)))] + [str(proj / "link_to_outside_file.py")]
         return gl, ["lint-file"] + files, set(), "lint-file"
-    if r < 0.30:
+    if r < 0.28:
         return gl, ["spdx"], set(), "spdx"
+    if r < 0.30:
+        # '-' is standard output, not a file of that name
+        return gl, ["spdx", "-o", "-"], set(), "spdx-o-dash"
     if r < 0.36:
         where = rng.choice(["in", "out"])
         target = (proj / "bom.spdx") if where == "in" else (outdir / "bom.spdx")
@@ -202,6 +209,9 @@ def judge(res, base, proj, before, after, events, allowed, label, args, git, via
             tolerated.append(rel)
             continue
         if rel in allowed:
+            if label == "download" and what != "added":
+                res.violation("download:alters-what-exists", f"`reuse {' '.join(args)[:160]}` {what} {rel}; download only ever adds ({via})", diff=diff)
+                return False
             continue
         if what == "added" and after[rel][0] == "d" and any(a.startswith(rel + "/") for a in allowed):
             continue
